@@ -79,6 +79,12 @@ theorem fin_before_cancel :
     (calls_Close.idxOf "close") < (calls_Close.idxOf "g.sendPacket") ∧
     (calls_Close.idxOf "g.cancel") < (calls_Close.idxOf "g.wg.Wait") := by decide
 
+/-- ... and nowhere else: the goroutines `start()` spawns end in `Close` without cancelling the
+    connection context themselves, so that a closure of the connection's own making (keepalive
+    timeout, transport error in one direction) still attempts its FIN on a live context -/
+theorem loops_leave_cancel_to_close :
+    skel_start.contains "call:g.cancel" = false ∧ (skel_start.filter (· == "call:g.Close")).length = 2 := by decide
+
 /-- **Close itself blocks only in waits that a timer ends**: the only select
     without `default` in Close's body is the wait for the FIN attempt, which
     also listens on the FIN timeout context; the FIN attempt itself runs in a
